@@ -678,11 +678,33 @@ def shards(tier, seed):
     for i, spec in enumerate(cat):
         n = NSUB if spec["kind"] in HEAVY else (2 if spec["kind"] in ("ac", "gene") else 1)
         out += [{"tier": tier, "part": "history", "idx": i, "sub": [k, n]} for k in range(n)]
+    out += [{"tier": tier, "part": "lochist", "i": i} for i in range(16)]
     return out + [{"tier": tier, "part": "immut", "idx": i} for i in range(len(cat))]
+
+
+def loc_world(tier):
+    """every location of a small layout world (disjoint, zero-length, overlapping blocks; both strands) as a history-search
+    object: the cached block list / lazy slots of locations are shared by most operations"""
+    from vlib import worlds
+
+    N, k = (4, 2) if tier == "quick" else (5, 3)
+    out = []
+    for mode in ("disjoint", "empty", "overlap"):
+        for bl in worlds.layouts(N, k, mode):
+            for s_ in "+-":
+                out.append(dict(kind="loc", blocks=[list(b) for b in bl], strand=s_, parent="chrom"))
+    return out
 
 
 def run_shard(shard):
     res = ShardResult()
+    if shard["part"] == "lochist":
+        for idx, spec in enumerate(loc_world(shard["tier"])):
+            if idx % 16 == shard["i"]:
+                explore(res, spec, 2)
+        res.sample({"lochist": "history search (depth 2) on every location of the layout world"})
+        bootstrap.clear_global_caches()
+        return res
     spec = catalogue(shard["tier"])[shard["idx"]]
     if shard["part"] == "history":
         n = explore(res, spec, depth_for(shard["tier"], spec), tuple(shard.get("sub", (0, 1))))
